@@ -460,6 +460,17 @@ func (e *Engine) registerModels() {
 		v := in.path.concretize(t, "strconv.Itoa")
 		return in.strConst(strconv.Itoa(int(v)))
 	}
+	m["strconv.FormatFloat"] = func(in *Interp, fn *ssa.Function, a []Value) Value {
+		f := a[0].(*Term)
+		if f.IsConst() {
+			fm := byte(in.concreteInt(a[1], "fmt"))
+			prec := int(in.concreteInt(a[2], "prec"))
+			bits := int(in.concreteInt(a[3], "bits"))
+			return in.strConst(strconv.FormatFloat(fpc(f), fm, prec, bits))
+		}
+		// the decimal text of a symbolic float: an opaque token (ParseFloat(FormatFloat(x)) == x)
+		return Str{elems: []SElem{{tok: &Tok{val: &JVal{kind: 'f', f: f}}}}}
+	}
 	m["strconv.Atoi"] = func(in *Interp, fn *ssa.Function, a []Value) Value {
 		s := a[0].(Str)
 		c, ok := s.concrete()
